@@ -9,7 +9,7 @@ import urlgen
 
 ID = "C07"
 LEAN_MODULE = "UralModel.Props.C07"
-EXTRA_IMPORTS = ["UralModel.Props.C07Whole"]
+EXTRA_IMPORTS = ["UralModel.Props.C07Whole", "UralModel.Props.C06Total"]
 THEOREMS = [
     "Ural.Props.C07.normHost_eq_normalizeHostname",
     "Ural.Props.C07.normalized_netloc",
@@ -67,6 +67,11 @@ THEOREMS = [
     "Ural.Props.C07.infer_bare",
     "Ural.Props.C07.bare_hostname_agrees_infer",
     "Ural.Props.C07.bare_hostname_string_infer",
+    # urls the parser refuses (FX-C07-FPTOTAL): fingerprint_url returns the lower-cased url, the helper answers None
+    # exactly when no host can be read in it
+    "Ural.Props.C07.fingerprinted_hostname_unparseable",
+    "Ural.Props.C07.fingerprinted_hostname_unparseable_string",
+    "Ural.Props.C06.fingerprint_unparseable_string",
 ]
 TABLE_OBLIGATIONS = [
     "Ural.Props.C07.irrelevant_labels_ascii",
@@ -105,7 +110,7 @@ TRUSTED = [
     "ASCII-exact model: str.lower on the model alphabet (DESIGN §4)",
 ]
 ASSUMPTIONS = [
-    "reading: URLs that normalize_url cannot parse (it returns its argument; fingerprint_url raises) are outside (C06/C07 quantify over parseable URLs)",
+    "reading (the sentence 'unparseable URLs are outside' is withdrawn for the fingerprint pair, FX-C07-FPTOTAL): on an URL the parser refuses both URL functions return a string (normalize_url its argument, fingerprint_url the lower-cased argument) and must not raise; 'the host of fingerprint_url(u)' is then the host the standard parser reads in that string after a scheme is ensured, nothing when it refuses it too: the helper must answer None exactly when nothing can be read - demanded of urls that need no cleaning and carry no redirection (the helper cleans and resolves, the returned string is the argument itself). Still a reading: a refused PORT ('http://a.com:99999/') leaves a host to read on both sides - neither helper reads .port - and which host it is (www. / language labels are cut by the helper, the returned string is untouched) is compared on parseable URLs only; the normalize pair and the stems clause are demanded of parseable URLs (normalized_/fingerprinted_lru_stems hand the returned string to lru_stems_from_parsed_url)",
     "reading: 'the host of X(u)' is the host the standard parser finds in the result string after a scheme is ensured; when the result has no host at all (the tuple's hostname is empty/None) the helper must return an empty/None host too (None == '')",
     "reading: a URL whose host, as the parser reads it in the cleaned string, begins or ends with whitespace ('http://www.b.com /x', 'http ://x') is outside: the helper's hostname.strip() removes it, normalize_url keeps it; witnessed in Lean (edge_whitespace_witness)",
     "reading: the fingerprint pair is compared with the helper's default infer_redirection=True (fingerprint_url always infers); with False only on URLs carrying no redirection",
@@ -116,7 +121,7 @@ ASSUMPTIONS = [
 UNPROVED = (
     "Proved for every string of an explicit decidable class, the parser inside the model (Props/C07Whole.lean): the class is InClassOf ir g u of Lemmas/NormBridge.lean — the cleaned, resolved form of u "
     "(white space / control characters around, control characters anywhere, lower-case escapes, a followed redirect are all inside) is a string [letters:// | // | nothing][userinfo@]host[:port][/path][?query][#fragment] — "
-    "with a host that is no IP literal and a port text that is a port (else normalize_url returns its argument / fingerprint_url raises: outside the reading). "
+    "with a host that is no IP literal and a port text that is a port (else both URL functions return the url as a string: fingerprinted_hostname_unparseable(_string) - FULL for every refused string that needs no cleaning and carries no redirection: fingerprint_url(u) = u.lower() under both unsplit, helper None <-> no host readable in it). "
     "stems_agree_norm (every option set of normalize_url) and stems_agree_fp (both strip_suffix, every trie) have NO reparse hypothesis any more: ReparseOk is proved (norm_reparse, fp_reparse: the tuple is well-formed, "
     "ensure_protocol puts back what was cut, urlsplit_urlunsplit20), results without netloc included; remaining side conditions: HasNet for normalize_url (the tuple has a netloc, or no scheme, or a scheme of uses_netloc — "
     "always true with the default strip_protocol=True; outside it the clause really fails: hasNet_needed, 'custom:///path' with strip_protocol=False), HostPlain with strip_suffix=True (host made of characters that are no delimiter, '%', "
@@ -195,6 +200,13 @@ def raw_host(url, infer):
         return None
 
 
+def needs_no_cleaning(u):
+    """the cleaning pass of the helpers / of normalize_url leaves u alone"""
+    from ural.patterns import CONTROL_CHARS_RE
+
+    return CONTROL_CHARS_RE.sub("", u).strip() == u
+
+
 def edge_ws(h):
     return bool(h) and h != h.strip()
 
@@ -271,7 +283,31 @@ def oracle_url(case):
 
     # --- fingerprint pair
     t = _g(fingerprint_url, u, unsplit=False, strip_suffix=ss)
-    if not isinstance(t, _Exc):
+    if isinstance(t, _Exc):
+        # "for every URL": an exception is no host (FX-C07-FPTOTAL: the unparseable url was unpacked)
+        out.append("[fingerprint-raises] fingerprint_url(%r, unsplit=False, strip_suffix=%r) %r while get_fingerprinted_hostname = %r"
+                   % (u, ss, t, _g(get_fingerprinted_hostname, u, infer_redirection=inf, strip_suffix=ss)))
+    elif isinstance(t, str):
+        # the parser refuses u: the url comes back as a string under both `unsplit`; "the host of
+        # fingerprint_url(u)" is the host the standard parser reads in it after a scheme is ensured,
+        # nothing when it refuses it too.  Demanded on urls that need no cleaning and carry no
+        # redirection (the helper cleans and resolves, the returned string is the argument): the
+        # helper answers None exactly when no host can be read in the result.  A refused port leaves
+        # a host on both sides (neither helper reads .port): which host is compared on parseable urls.
+        n = _g(fingerprint_url, u, strip_suffix=ss)
+        if isinstance(n, _Exc) or n != t:
+            out.append("[fingerprint-unparseable] fingerprint_url(%r, unsplit=False) = %r but fingerprint_url(%r) = %r" % (u, t, u, n))
+        elif not carries_redirection(u) and needs_no_cleaning(u.lower()):
+            h = _g(get_fingerprinted_hostname, u, infer_redirection=inf, strip_suffix=ss)
+            want = host_in_string(n)
+            hostless = isinstance(want, _Exc) or want is None
+            # (None strictly: '' is what strip_suffix leaves of a host that is a public suffix - a host was read)
+            if isinstance(h, _Exc) or (h is None) != hostless:
+                out.append(
+                    "[fingerprint-unparseable] get_fingerprinted_hostname(%r, infer_redirection=%r, strip_suffix=%r) = %r but fingerprint_url gives %r in which the parser reads the host %r"
+                    % (u, inf, ss, h, n, want)
+                )
+    else:
         n = _g(fingerprint_url, u, strip_suffix=ss)
         if (inf or not carries_redirection(u)) and not edge_ws(raw_host(u.lower(), True)) and not edge_ws(raw_host(u, inf)):
             h = _g(get_fingerprinted_hostname, u, infer_redirection=inf, strip_suffix=ss)
@@ -361,7 +397,15 @@ def parser_in_model(s):
         t = t.replace(b, "")
     if "[" in t or "]" in t:
         return False
+    if nfkc_sensitive(s):
+        return False  # _checknetloc (NFKC of a non-ASCII netloc yields a delimiter: ValueError) is not modelled
     return nc.in_model_alphabet(s) and all(ord(c) < 0x80 or c.lower() == c for c in s)
+
+
+def nfkc_sensitive(s):
+    import unicodedata
+
+    return any(ord(c) >= 0x80 and (set(unicodedata.normalize("NFKC", c)) & set("/?#@:")) for c in s)
 
 
 def _split_of(t):
@@ -414,7 +458,7 @@ def _real_tuples(case):
     t = _g(normalize_url, u, unsplit=False, normalize_amp=case["amp"], infer_redirection=case["infer"])
     out["norm"] = None if isinstance(t, (_Exc, str)) else t
     t = _g(fingerprint_url, u, unsplit=False, strip_suffix=case["ss"])
-    out["fp"] = None if isinstance(t, _Exc) else t
+    out["fp"] = None if isinstance(t, (_Exc, str)) else t  # a str: the unparseable url, returned as it is
     t = _g(canonicalize_url, u, unsplit=False)
     out["canon"] = None if isinstance(t, _Exc) else t
     return out
@@ -635,13 +679,14 @@ def url_impl(case):
             out.append("unparseable" if tup["norm"] is None else [tup["norm"].hostname])
         elif tag == "host_fp":
             t = _g(_fp_tuple, u, ss)
-            out.append(lib.pyerr(t.e) if isinstance(t, _Exc) else [t.hostname])
+            # a str (unparseable url returned as it is) has no hostname component: the model's `none`
+            out.append(lib.pyerr(t.e) if isinstance(t, _Exc) else [None] if isinstance(t, str) else [t.hostname])
         elif tag == "stems_norm":
             r = _g(normalized_lru_stems, u, suffix_aware=sa, normalize_amp=amp, infer_redirection=inf)
             out.append(None if tup["norm"] is None else (lib.pyerr(r.e) if isinstance(r, _Exc) else {"stems": list(r)}))
         elif tag == "stems_fp":
             r = _g(fingerprinted_lru_stems, u, suffix_aware=sa, strip_suffix=ss)
-            out.append(lib.pyerr(r.e) if isinstance(r, _Exc) else {"stems": list(r)})
+            out.append(_fp_stems_out(u, ss, tup, r))
         elif tag == "stems_canon":
             r = _g(canonicalized_lru_stems, u, suffix_aware=sa)
             out.append(lib.pyerr(r.e) if isinstance(r, _Exc) else {"stems": list(r)})
@@ -658,7 +703,7 @@ def url_impl(case):
             out.append(None if tup["norm"] is None else (lib.pyerr(r.e) if isinstance(r, _Exc) else {"stems": list(r)}))
         elif tag == "stems_fp_model":
             r = _g(fingerprinted_lru_stems, u, suffix_aware=sa, strip_suffix=ss)
-            out.append(lib.pyerr(r.e) if isinstance(r, _Exc) else {"stems": list(r)})
+            out.append(_fp_stems_out(u, ss, tup, r))
         elif tag == "stems_canon_model":
             r = _g(canonicalized_lru_stems, u, suffix_aware=sa)
             out.append(lib.pyerr(r.e) if isinstance(r, _Exc) else {"stems": list(r)})
@@ -708,6 +753,16 @@ def url_impl(case):
         elif tag == "assume":
             out.append(bool(assumptions_hold(case)))
     return out
+
+
+def _fp_stems_out(u, ss, tup, r):
+    """fingerprinted_lru_stems of an unparseable url: as for normalized_lru_stems (the string the URL
+    function returned is handed to lru_stems_from_parsed_url: ValueError, or garbage on five
+    characters) the model answers null = 'no tuple'; an exception of fingerprint_url itself is shown"""
+    if tup["fp"] is None:
+        t = _g(_fp_tuple, u, ss)
+        return lib.pyerr(t.e) if isinstance(t, _Exc) else None
+    return lib.pyerr(r.e) if isinstance(r, _Exc) else {"stems": list(r)}
 
 
 def _fp_tuple(u, ss):
@@ -779,7 +834,7 @@ CONFIGS = [dict(zip(("amp", "infer", "ss", "sa"), bits)) for bits in itertools.p
 
 AMP_PUNY = "xn--amp-tlrama-f7ab"  # 'amp-télérama'
 
-CORPUS_URLS = [
+CORPUS_URLS = list(nc.REFUSED_URLS) + [  # FX-C07-FPTOTAL first: fingerprint_url raised on every refused url
     # D26 (README example), D20, D16
     "fr-FR.facebook.com", "http://fr-FR.facebook.com/x", "https://fr.facebook.com/", "http://fr-fr.co.uk/",
     "http://amp-xn--tlrama-bvab.fr/", "amp-xn--tlrama-bvab.fr", "http://AMP-XN--TLRAMA-BVAB.fr/p", "http://amp-amp-a.com/",
@@ -958,6 +1013,12 @@ def classify(case):
         labs.append("url:redirect-carrying")
     if "://" not in u:
         labs.append("url:no-scheme")
+    lib.ural()
+    t = _g(_fp_tuple, u, case["ss"])
+    if isinstance(t, (_Exc, str)):
+        labs.append("url:refused-by-the-parser(fingerprint_url %s)" % ("raises" if isinstance(t, _Exc) else "returns it lower-cased"))
+        if not isinstance(t, _Exc) and not carries_redirection(u) and needs_no_cleaning(u.lower()):
+            labs.append("url:refused, helper-None-iff-hostless demanded")
     labs.append("theorem-class(normalize):%s" % (theorem_class(u, case["infer"]) or "outside"))
     labs.append("theorem-class(fingerprint):%s" % (theorem_class(u, True, lower=True) or "outside"))
     return labs
